@@ -10,7 +10,8 @@ from props.common import load_def, mk_dfa, outcome
 RULE = ("random pairs of valid DFAs over a common alphabet (1-6 states, partial/complete mixes, 7 name pools), "
         "plus built pairs: a DFA vs a renamed copy with one deep final flag flipped ('differ on one long word'), "
         "vs itself completed with a trap, vs its sub/superset; the ten comparison answers and isempty/isfinite are "
-        "compared exactly with the proved model. distinct = distinct canonical (A, B); non-trivial = both "
+        "compared exactly with the proved model; == is additionally compared with the mirror model of the code's "
+        "Hopcroft-Karp/union-find loop (two symbol orders and tie-breaks). distinct = distinct canonical (A, B); non-trivial = both "
         "languages non-empty and the pair is not literally identical")
 
 NAMES = ["eq", "ne", "le", "lt", "ge", "gt", "issubset", "issuperset", "isdisjoint"]
@@ -36,9 +37,16 @@ def check_pair(ctx, adef, bdef, tag):
     a, b = mk_dfa(adef), mk_dfa(bdef)
     sy = enc.SymMap(a.input_symbols | b.input_symbols)
     ta, tb = enc.enc_dfa(a, None, sy), enc.enc_dfa(b, None, sy)
-    ans, cmp_ = ctx.driver.batch([(6, 1, enc.tree([ta, tb])), (0, 1, enc.tree([ta, tb]))])
+    ans, cmp_, hk = ctx.driver.batch([(6, 1, enc.tree([ta, tb])), (0, 1, enc.tree([ta, tb])), (6, 3, enc.tree([ta, tb]))])
     got = impl_answers(a, b)
     problems = []
+    # == against the mirror model of DFA.__eq__ (Hopcroft-Karp as coded), under two schedules
+    for sched, m in zip(("record order, first root wins ties", "reversed order, second root wins ties"), hk):
+        m = enc.dec_res(m)
+        want = ("ok", m[1] == 1) if m[0] == "ok" else ("err", m[1])
+        if got[0][:2] != want:
+            problems.append(f"eq: impl {got[0]} Hopcroft-Karp mirror model ({sched}) {want}")
+    ctx.tally("hk_mirror_compared")
     for name, g, m in zip(NAMES, got, ans):
         m = enc.dec_res(m)
         want = ("ok", m[1] == 1) if m[0] == "ok" else ("err", m[1])
